@@ -20,7 +20,7 @@ BOUNDS = {"quick": dict(program_length="<=2", components=14, taxa=2, markers=2),
 OUTSIDE = ["bit-level identity of the real Mersenne-Twister / PCG streams (numpy's and CPython's contract)", "pymoo's internal randomness and its own seeding of numpy.random",
            "hash-order or thread-scheduling dependent behaviour", "G_E_Phenotyping (pandas data frames: see C14)"]
 
-MODS = ["pybrops.core.random.prng", "pybrops.core.random.sampling", "pybrops.core.util.array", "pybrops.popgen.gmat.DensePhasedGenotypeMatrix",
+MODS = ["pybrops.breed.prot.pt.G_E_Phenotyping", "pybrops.core.error.error_type_pandas", "pybrops.core.error.error_value_pandas", "pybrops.core.random.prng", "pybrops.core.random.sampling", "pybrops.core.util.array", "pybrops.popgen.gmat.DensePhasedGenotypeMatrix",
         "pybrops.breed.prot.mate.TwoWayCross", "pybrops.breed.prot.mate.TwoWayDHCross", "pybrops.breed.prot.mate.SelfCross", "pybrops.breed.prot.mate.ThreeWayCross",
         "pybrops.breed.prot.mate.ThreeWayDHCross", "pybrops.breed.prot.mate.FourWayCross", "pybrops.breed.prot.mate.FourWayDHCross", "pybrops.breed.prot.mate.util",
         "pybrops.breed.prot.sel.cfg.SubsetSelectionConfiguration", "pybrops.breed.prot.sel.cfg.RealSelectionConfiguration", "pybrops.breed.prot.sel.cfg.IntegerSelectionConfiguration",
@@ -215,13 +215,103 @@ def c_select(R, sy):
     return cfg.xconfig
 
 
+# ---- components split into construction and use: objects may be built before the generator is (re)seeded
+def _gpmod():
+    from pybrops.model.gmod.DenseAdditiveLinearGenomicModel import DenseAdditiveLinearGenomicModel as G
+    return G(beta=numpy.array([[1.0]]), u_misc=None, u_a=numpy.array([[1.0], [-0.5]]), trait=numpy.array(["y"], dtype=object))
+
+
+def _b_pheno(how):
+    def build(R, sy):
+        import copy
+        from pybrops.breed.prot.pt.G_E_Phenotyping import G_E_Phenotyping
+        p = G_E_Phenotyping(gpmod=_gpmod(), nenv=1, nrep=1, var_env=0.25, var_rep=0.0, var_err=1.0, rng=R)
+        if how == "deepcopy":
+            p = copy.deepcopy(p)
+        elif how == "copy":
+            p = copy.copy(p)
+        elif how == "method-deepcopy":
+            p = p.deepcopy()
+        return p
+    return build
+
+
+def _u_pheno(p, sy):
+    df = p.phenotype(_pgmat(2, 2))
+    return df["y"].to_numpy()
+
+
+def _b_mate(R, sy):
+    from pybrops.breed.prot.mate.TwoWayCross import TwoWayCross
+    return TwoWayCross(rng=R)
+
+
+def _u_mate(p, sy):
+    return p.mate(_pgmat(2, 2), numpy.array([[0, 1]]), 1, 1, nself=0).mat
+
+
+def _b_hill(R, sy):
+    from pybrops.opt.algo.SteepestDescentSubsetHillClimber import SteepestDescentSubsetHillClimber
+    return SteepestDescentSubsetHillClimber(rng=R)
+
+
+def _u_hill(a, sy):
+    s = a.minimize(_problem(3, 2))
+    return [s.soln_decn, s.soln_obj]
+
+
+def _b_ga(R, sy):
+    from pybrops.opt.algo.SubsetGeneticAlgorithm import SubsetGeneticAlgorithm
+    kw = dict(ngen=2, pop_size=4)
+    if R is not None:
+        kw["rng"] = R
+    return SubsetGeneticAlgorithm(**kw)
+
+
+def _u_ga(a, sy):
+    import pybrops.opt.algo.SubsetGeneticAlgorithm as mod
+    saved = mod.minimize
+    if sy:
+        mod.minimize = _stub_minimize
+    try:
+        s = a.minimize(_problem(4, 2))
+    finally:
+        mod.minimize = saved
+    return [s.soln_decn]
+
+
+def _b_cfg(R, sy):
+    from pybrops.breed.prot.sel.cfg.SubsetSelectionConfiguration import SubsetSelectionConfiguration as C
+    return C(ncross=2, nparent=2, nmating=1, nprogeny=1, pgmat=_pgmat(4, 1), xconfig_decn=numpy.array([0, 1, 2]), rng=R)
+
+
+def _u_cfg(c, sy):
+    c.sample_xconfig()
+    return c.xconfig
+
+
+OBJ = dict(pheno=(_b_pheno("plain"), _u_pheno), pheno_deepcopy=(_b_pheno("deepcopy"), _u_pheno), pheno_copy=(_b_pheno("copy"), _u_pheno),
+           pheno_mdeepcopy=(_b_pheno("method-deepcopy"), _u_pheno), mate_obj=(_b_mate, _u_mate), hill_obj=(_b_hill, _u_hill), ga_obj=(_b_ga, _u_ga), cfg_obj=(_b_cfg, _u_cfg))
+
+
+def _objcomp(name):
+    b, u = OBJ[name]
+
+    def f(R, sy):
+        return u(b(R, sy), sy)
+    f.__name__ = "c_" + name
+    return f
+
+
 COMP = dict(spawn=c_spawn, wrappers=c_wrappers, tiled=c_tiled, sus=c_sus, axis=c_axis, outcross=c_outcross, cfg_subset=c_cfg_subset, cfg_integer=c_cfg_integer,
             cfg_binary=c_cfg_binary, cfg_real=c_cfg_real, cfg_mate=c_cfg_mate, twoway=_mate("TwoWayCross", 2), twowaydh=_mate("TwoWayDHCross", 2), selfc=_mate("SelfCross", 1),
             threeway=_mate("ThreeWayCross", 3), threewaydh=_mate("ThreeWayDHCross", 3), fourway=_mate("FourWayCross", 4), fourwaydh=_mate("FourWayDHCross", 4),
             hillclimb=c_hillclimb, ga=_ga("SubsetGeneticAlgorithm"), nsga2=_ga("NSGA2SubsetGeneticAlgorithm"), jitter=c_jitter, embv=c_embv, select=c_select)
+for _nm in OBJ:
+    COMP[_nm] = _objcomp(_nm)
 # components that accept a caller-supplied generator
 TAKES_RNG = ["tiled", "sus", "axis", "outcross", "cfg_subset", "cfg_integer", "cfg_binary", "cfg_real", "cfg_mate", "twoway", "twowaydh", "selfc", "threeway", "threewaydh",
-             "fourway", "fourwaydh", "hillclimb", "ga", "nsga2", "select"]
+             "fourway", "fourwaydh", "hillclimb", "ga", "nsga2", "select", "pheno", "pheno_copy"]
 
 
 def flat(x, acc=None):
@@ -286,19 +376,26 @@ class Repro(_EnvHarness):
     name = "seeded-rerun"
 
     def inputs(self, mk):
+        if self.params.get("seedval") is not None:
+            return dict(seed=int(self.params["seedval"]))         # boundary seeds as concrete values (0, 2**32-1, ...)
         return dict(seed=mk.int("seed", lo=0, hi=2 ** 32 - 1))
 
     def call(self, inp, mk):
         import pybrops.core.random.prng as prng
         outs, snaps, traps = [], [], []
+        pre = bool(self.params.get("prebuilt"))
         with entropy.EntropyEnv() as env:
+            if pre:
+                # objects constructed (and copied) before the generator is re-seeded, in an arbitrary earlier stream state
+                env.new_run("pre")
+                objs = [OBJ[c][0](None, True) for c in self.params["prog"]]
             for label in ("A", "B"):
                 env.new_run(label)
                 if self.params.get("twin") == "unseeded" and label == "B":
                     pass                # reachability twin: second run is not re-seeded
                 else:
                     prng.seed(inp["seed"])
-                outs.append(self._prog(None, True))
+                outs.append([OBJ[c][1](o, True) for c, o in zip(self.params["prog"], objs)] if pre else self._prog(None, True))
                 snaps.append(env.snapshot())
                 traps.append([l for l in env.log if l[0] == "trap"])
             self._draws = env.draw_names()
@@ -316,8 +413,12 @@ class Repro(_EnvHarness):
         compat.load(*self.modules())
         compat.symbolic_mode(False)
         import pybrops.core.random.prng as prng
-        s = int(vals.get("seed", 0))
+        s = int(self.params["seedval"]) if self.params.get("seedval") is not None else int(vals.get("seed", 0))
         res = []
+        pre = bool(self.params.get("prebuilt"))
+        if pre:
+            numpy.random.standard_normal(2)
+            objs = [OBJ[c][0](None, False) for c in self.params["prog"]]
         for hist in range(3):
             if hist == 1:
                 random.random()
@@ -328,7 +429,7 @@ class Repro(_EnvHarness):
                 random.getrandbits(70)
                 numpy.random.uniform(size=2)
             prng.seed(s)
-            o = self._prog(None, False)
+            o = [OBJ[c][1](ob, False) for c, ob in zip(self.params["prog"], objs)] if pre else self._prog(None, False)
             res.append((o, random.getstate(), numpy.random.get_state()))
         for k in (1, 2):
             if not bit_equal(res[0][0], res[k][0]):
@@ -455,18 +556,25 @@ GA_COMPONENTS = ("ga", "nsga2")
 
 def obligations(tier):
     obs = []
-    quick_single = ["spawn", "wrappers", "tiled", "sus", "axis", "outcross", "cfg_subset", "cfg_real", "cfg_integer", "cfg_mate", "twoway", "twowaydh", "hillclimb", "ga", "select", "jitter"]
-    all_single = [c for c in COMP if not c.startswith("twin")]
+    quick_single = ["pheno", "pheno_copy", "spawn", "wrappers", "tiled", "sus", "axis", "outcross", "cfg_subset", "cfg_real", "cfg_integer", "cfg_mate", "twoway", "twowaydh", "hillclimb", "ga", "select", "jitter"]
+    all_single = [c for c in COMP if not c.startswith("twin") and (c not in OBJ or c.startswith("pheno"))]
     singles = quick_single if tier == "quick" else all_single
     for c in singles:
         obs.append(Repro(prog=[c]))
     pairs = [["spawn", "tiled"], ["wrappers", "spawn"], ["twowaydh", "tiled"], ["sus", "wrappers"]]
     if tier == "thorough":
         base = ["spawn", "wrappers", "tiled", "sus", "twoway", "cfg_subset", "hillclimb", "ga"]
-        pairs = [[a, b] for a in base for b in base if a != b]
-        pairs += [["spawn", "twoway", "wrappers"], ["tiled", "spawn", "sus"], ["ga", "spawn", "cfg_subset"], ["wrappers", "hillclimb", "spawn"]]
+        heavy = {"cfg_subset", "ga", "twoway"}       # two path-heavy components in one program exceed the budget
+        pairs = [[a, b] for a in base for b in base if a != b and not ({a, b} <= heavy and "cfg_subset" in (a, b))]
+        pairs += [["spawn", "twoway", "wrappers"], ["tiled", "spawn", "sus"], ["ga", "spawn", "tiled"], ["wrappers", "hillclimb", "spawn"]]
     for p in pairs:
         obs.append(Repro(prog=p))
+    for sv in (0, 2 ** 32 - 1, 1):
+        obs.append(Repro(prog=["wrappers", "spawn"], seedval=sv))
+    obs.append(Repro(prog=["twoway"], seedval=0))
+    for c in (["pheno", "pheno_deepcopy", "pheno_copy", "pheno_mdeepcopy", "mate_obj", "hill_obj", "ga_obj"]):
+        obs.append(Repro(prog=[c], prebuilt=True))
+    obs.append(Repro(prog=["pheno_deepcopy", "mate_obj"], prebuilt=True))
     obs.append(ExpectRefuted(Repro(prog=["wrappers"], twin="unseeded")))
     obs.append(ExpectRefuted(Isolated(prog=["twin_ignores_rng"])))
     iso = [c for c in TAKES_RNG if (tier == "thorough" or c in quick_single)]
